@@ -141,7 +141,7 @@ Ltac upd_cases c c' :=
 (* ---------- state simplification ---------- *)
 Ltac wsimp :=
   cbn [w_ctr w_calls w_conf w_pend w_act w_sub w_chan w_cpc w_spc w_upc w_rpc w_hpc w_log w_panic
-       w_straddle w_substraddle w_subs_seen
+       w_straddle w_substraddle w_subs_seen w_gen
        set_sub set_tables set_chan set_cpc set_spc set_upc set_rpc set_hpc add_log set_panic set_flags
        addInflightRequest addInflightSub removeSubscription addConfiguredSub removeConfiguredSub
        removeInflightRequest fst snd winit
